@@ -711,7 +711,11 @@ class FillNode(BaseNode):
 
             # NOTE: The fill is rendered later, when the loop has moved on, so we keep a copy of the loop's state.
             if "forloop" in dict_layer:
-                data.extra_context["forloop"] = dict_layer["forloop"].copy()
+                forloop = data.extra_context["forloop"] = dict_layer["forloop"].copy()
+                # Incl. the state of the loops that this loop is nested in
+                while forloop.get("parentloop"):
+                    forloop["parentloop"] = forloop["parentloop"].copy()
+                    forloop = forloop["parentloop"]
 
         # To allow using the variables from the forloops inside the fill tags, we need to
         # capture those variables too.
